@@ -439,22 +439,32 @@ Definition replace5_m (s : istr) (pos count : Z) (src : list Z) (pos2 count2 : Z
     else Contract
   else Contract.
 
-(* the iterator-based overloads, iterators given as offsets from begin(); no precondition is checked: [first, last)
-   must be a valid range of the string (0 <= first <= last <= size()), otherwise the behaviour is undefined.
+(* the iterator-based overloads, iterators given as offsets from begin() (ptrdiff_t values).  They start with
+   assert_range_in_string(first, last) (fix commit 377d1df; before it nothing was checked and a pair outside the string
+   wrote outside the object): start = size_type(first - cbegin()), distance = size_type(last - first),
+   TETL_PRECONDITION(start <= size()), TETL_PRECONDITION(distance <= size() - start) — as erase(first, last).
    replace(first, last, str) / (first, last, s, count2) / (first, last, s): str_replace(f, l, sf, sl) *)
 Definition replace_it_m (s : istr) (first last : Z) (src : list Z) : res istr :=
-  if (0 <=? first) && (first <=? last) && (last <=? get_size s) then
-    let n := if zlen src <? last - first then zlen src else last - first in
-    do b <- write_range (buf s) first (firstn (Z.to_nat n) src);
-    Ok (with_buf s b)
-  else UB OutOfBounds.
-(* replace(first, last, count2, ch): l = min(last, f + count2); str_replace(f, l, ch) fills [f, l) *)
+  let start := sz first in
+  let distance := sz (last - first) in
+  if start <=? get_size s then
+    if distance <=? sz (get_size s - start) then
+      let n := if zlen src <? distance then zlen src else distance in
+      do b <- write_range (buf s) start (firstn (Z.to_nat n) src);
+      Ok (with_buf s b)
+    else Contract
+  else Contract.
+(* replace(first, last, count2, ch): l = f + min(count2, last - first); str_replace(f, l, ch) fills [f, l) *)
 Definition replace_it_fill_m (s : istr) (first last count2 ch : Z) : res istr :=
-  if (0 <=? first) && (first <=? last) && (last <=? get_size s) then
-    let n := min_sz (last - first) count2 in
-    do b <- write_range (buf s) first (repeat ch (Z.to_nat n));
-    Ok (with_buf s b)
-  else UB OutOfBounds.
+  let start := sz first in
+  let distance := sz (last - first) in
+  if start <=? get_size s then
+    if distance <=? sz (get_size s - start) then
+      let n := min_sz distance count2 in
+      do b <- write_range (buf s) start (repeat ch (Z.to_nat n));
+      Ok (with_buf s b)
+    else Contract
+  else Contract.
 
 (** * members called WITHOUT a position: the default argument as written in the header.
       find / find_first_of / find_first_not_of: 0; find_last_of / find_last_not_of: npos (fixed);
